@@ -159,9 +159,12 @@ def synthetic_case(seed, idx, rec):
                               f'edition {edi["batch"]}: {sorted(missing)}',
                               case)
         lay = truth['editions'][0]['responses']
-        rec.seen((len(truth['editions']), len(lay),
+        if truth.get('para'):
+            rec.count('synthetic_parallel_listings')
+        rec.seen((len(truth['editions']), len(lay), truth.get('para'),
                   tuple(sorted({(str(r['step_kind']), r['decreasing'],
-                                 r['integrated'], len(r['edges']))
+                                 r['integrated'], len(r['edges']),
+                                 str(r['mesh']))
                                 for r in lay}))))
         if idx % 200 == 0:
             rec.sample({'mode': 'synthetic', 'editions': want_batches,
@@ -173,9 +176,84 @@ def synthetic_case(seed, idx, rec):
         shutil.rmtree(work, ignore_errors=True)
 
 
+def check_mesh(item, zone, batch, rec, case):
+    '''Results on a mesh: every cell of every energy range, and the entropies
+    printed after each range, under the group they were printed for.'''
+    # pylint: disable=too-many-locals
+    res = item['results']
+    where = f'edition {batch} response {item.get("response_name")} mesh'
+    dset = res.get('score')
+    if dset is None:
+        rec.violation('score-dataset-missing', where, case)
+        return
+    ngr, ncells = len(zone['edges']) - 1, len(zone['cells'][0])
+    names = list(dset.bins)
+    if list(np.asarray(dset.bins['e'])) != list(zone['edges']):
+        rec.violation('energy-bins-differ', f'{where}: parsed '
+                      f'{list(dset.bins["e"])}, printed boundaries '
+                      f'{zone["edges"]} (decreasing print order: '
+                      f'{zone["decreasing"]})', case)
+        return
+    val, err = np.asarray(dset.value), np.asarray(dset.error)
+    shape = [1] * val.ndim
+    shape[names.index('u')], shape[names.index('e')] = ncells, ngr
+    if list(val.shape) != shape:
+        rec.violation('dataset-shape-differs', f'{where}: {val.shape}, '
+                      f'expected {shape}', case)
+        return
+    for gnum in range(ngr):
+        for cnum, (score, sigma) in enumerate(zone['cells'][gnum]):
+            index = [0] * val.ndim
+            index[names.index('u')], index[names.index('e')] = cnum, gnum
+            got_v, got_e = float(val[tuple(index)]), float(err[tuple(index)])
+            rec.count('synthetic_cells_compared')
+            rec.count('mesh_cells_compared')
+            if got_v != score:
+                rec.violation('value-differs-from-printed-score',
+                              f'{where} cell ({cnum},0,0) range '
+                              f'{zone["edges"][gnum:gnum + 2]}: value '
+                              f'{got_v!r}, printed {score!r} (ranges '
+                              f'printed decreasing: {zone["decreasing"]})',
+                              case)
+                return
+            if not close(got_e, score * sigma / 100.0):
+                rec.violation('error-is-not-value-times-sigma-percent',
+                              f'{where} cell ({cnum},0,0) range {gnum}: '
+                              f'error {got_e!r}, printed {score!r} x '
+                              f'{sigma!r} %', case)
+                return
+    for col, key in enumerate(('boltzmann_entropy', 'shannon_entropy')):
+        ent = res.get(key)
+        if zone['entropies'] is None:
+            if ent is not None:
+                rec.violation('entropy-not-printed-but-returned',
+                              f'{where}: {key}', case)
+            continue
+        if ent is None:
+            rec.violation('printed-entropy-not-returned', f'{where}: {key}',
+                          case)
+            continue
+        if list(np.asarray(ent.bins['e'])) != list(zone['edges']):
+            rec.violation('energy-bins-differ', f'{where}: {key} bins '
+                          f'{list(ent.bins["e"])}, printed {zone["edges"]}',
+                          case)
+            continue
+        got = np.asarray(ent.value).reshape(-1).tolist()
+        want = [zone['entropies'][g][col] for g in range(ngr)]
+        rec.count('entropies_compared', ngr)
+        if got != want:
+            rec.violation('entropy-attached-to-the-wrong-energy-range',
+                          f'{where}: {key} per increasing range {got}, '
+                          f'printed {want} (ranges printed decreasing: '
+                          f'{zone["decreasing"]})', case)
+
+
 def check_zone(item, zone, batch, rec, case):
     '''Compare the datasets of one parsed item with what was printed.'''
     # pylint: disable=too-many-locals,too-many-branches
+    if zone.get('mesh'):
+        check_mesh(item, zone, batch, rec, case)
+        return
     res = item['results']
     where = f'edition {batch} response {item.get("response_name")} zone ' \
             f'{zone["id"]}'
@@ -186,6 +264,15 @@ def check_zone(item, zone, batch, rec, case):
     steps = zone['steps']
     ngr = len(zone['edges']) - 1
     axis = {'t': 't', 'mu': 'mu'}.get(zone['step_kind'])
+    for key, want in (('discarded_batches', zone.get('discarded', 0)),
+                      ('used_batches', batch - zone.get('discarded', 0))):
+        got = res.get(key)
+        if got is not None and hasattr(got, 'value'):
+            got = got.value
+        if got is not None and int(np.asarray(got).reshape(-1)[0]) != want:
+            rec.violation('batch-counts-differ-from-printed',
+                          f'{where}: {key} = {got!r}, printed {want}', case)
+            return
     val = np.asarray(dset.value)
     err = np.asarray(dset.error)
     names = list(dset.bins)
@@ -465,9 +552,13 @@ def run(spec, rec):
     else:
         from vf.props import c10_ap3
         if mode == 'ap3':
-            for idx in range(spec['lo'], spec['hi']):
-                rec.count('evaluations')
-                c10_ap3.synthetic_case(spec['seed'], idx, spec['tier'], rec)
+            try:
+                for idx in range(spec['lo'], spec['hi']):
+                    rec.count('evaluations')
+                    c10_ap3.synthetic_case(spec['seed'], idx, spec['tier'],
+                                           rec)
+            finally:
+                c10_ap3.cleanup()
         else:
             rec.count('evaluations')
             c10_ap3.shipped_differential(rec)
@@ -484,7 +575,11 @@ def replay(case, rec):
     else:
         from vf.props import c10_ap3
         if mode == 'ap3':
-            c10_ap3.synthetic_case(case['seed'], case['idx'],
-                                   case.get('tier', 'quick'), rec)
+            try:
+                c10_ap3.synthetic_case(case['seed'], case['idx'],
+                                       case.get('tier', 'quick'), rec,
+                                       previous=True)
+            finally:
+                c10_ap3.cleanup()
         else:
             c10_ap3.shipped_differential(rec)
